@@ -717,6 +717,9 @@ def _run(pid, tier, seed):
 
     # large chains are expensive: small chunks keep the pool balanced
     st = pmap_stats(worker, items, chunk=40, name=f"rewrite_{pid}")
+    if pid == "C11":
+        from .sweep import deep_executions
+        deep_executions(st, pid)       # simplification of deep but legal expressions completes
     run.absorb(st)
     c = st.c
     if pid == "C08":
